@@ -48,6 +48,8 @@ let parse_enum_op tok =
   | ["A"; nm; idx] -> EAdd (cz nm, cz idx)
   | ["R"; nm] -> ERemove (cz nm)
   | ["M"; m] -> ESetMin (cz m)
+  | ["U"; nm; idx] -> EUpdate (cz nm, cz idx)
+  | ["C"] -> EClear
   | _ -> failwith ("bad enum op " ^ tok)
 
 let model_of (f : string list) : string =
